@@ -143,7 +143,7 @@ func prop(id string, rules []string, explanation, notDecided string, extraTrust 
 const structural = "Static analysis of /repo's current type-checked source (go/packages + go/types, per-function go/cfg explored path-sensitively with bounded inlining of the module's own callees). Decided are structural necessary conditions of the property - breaking any of them changes the behaviour the property describes - not the behaviour itself. "
 
 func init() {
-	prop("C01", []string{"R01a", "R01b", "R01c", "R01d", "R01e", "R01f", "R01g", "R01h"},
+	prop("C01", []string{"R01a", "R01b", "R01c", "R01d", "R01e", "R01f", "R01g", "R01h", "R16a"},
 		structural+"Decided: (R01f) at every ingress that reaches Cache.Put the hash and the size come from one declaration or from the stored bytes themselves; (R01c/R01d/R01e) inside the disk cache every CAS byte stream goes through a writer that hashes exactly the bytes it stores, compares SHA-256 and length with the declared ones and probes for trailing bytes before its only success return; (R01a/R01b) the index insertion is dominated by that success and nothing else inserts; (R01g) the reader handed to Cache.Put is the whole request payload (body, decoder over it, pipe fed by it, or the complete byte slice), never a truncating wrapper, so trailing or extra bytes reach the verifying writer; (R01h) every OK / nil / 200 acknowledgement in package server is dominated by Put having returned nil for that blob.",
 		"Not decided: that SHA-256 / zstd libraries compute what they claim; that a well-formed upload within limits is accepted (liveness); that an acknowledged blob stays readable until evicted (C05/C07 clauses); the content of decompressed data (decoder correctness).")
 	prop("C02", []string{"R02a", "R02b", "R02c", "R02d", "R02e"},
@@ -182,7 +182,7 @@ func init() {
 	prop("C13", []string{"R13a", "R13b", "R13c", "R13d", "R13e", "R13f", "R13g"},
 		structural+"Decided: (R13a/b/c) the inventory of registered gRPC methods is read from the service descriptors, each is classified mutating iff its handler reaches Cache.Put, and the unauthenticated-read allow-list contains only registered, non-mutating methods; (R13d) in each auth interceptor every path to the handler is the health check, an allowed read, or a passed credential check; (R13e/R13f) for every valuation of the configuration the gRPC server and every HTTP route (/, /status, /metrics) is wrapped by the interceptor / handler that valuation requires; (R13g) the unauthenticated wrapper forwards only GET and HEAD and every Put in the HTTP handler is behind the PUT method and the write-certificate check.",
 		"Not decided: the cryptographic verification itself (crypto/tls, go-http-auth, LDAP library), TLS handshake configuration beyond ClientAuth, password file parsing.")
-	prop("C14", []string{"R14a", "R14b", "R14c", "R14d", "R14e", "R14f", "R14g", "R14h", "R03a", "R04a"},
+	prop("C14", []string{"R14a", "R14b", "R14c", "R14d", "R14e", "R14f", "R14g", "R14h", "R03a", "R04a", "R16c"},
 		structural+"Decided: (R14a) every field selection through a nilable protobuf message pointer in request code is dominated by a non-nil fact; (R14b) every division by a non-constant is dominated by a non-zero fact; (R14c) every non-induction index is dominated by a length bound; (R14g) no log.Fatal / os.Exit / panic is reachable from a handler, interceptor or cache method; (R14d) every closer obtained on a request path is closed, returned or handed over on every exit; (R14e) every pipe's read end is terminated so writers cannot block for ever; (R14f) goroutines started by a request can always finish (sends never exceed channel capacity); (R14h) every digest put into the list handed to the presence check is non-nil (the check dereferences its elements while holding the cache lock); (R03a/R04a) reservations and temp files are released on every exit.",
 		"Not decided: panics inside third-party libraries, unbounded memory from huge messages, termination of loops over attacker-controlled data, goroutines of the gRPC/HTTP servers themselves.")
 	prop("C15", []string{"R15a", "R15b", "R15c", "R15d", "R15e"},
